@@ -250,6 +250,42 @@ func runC06(e *Env) {
 	}
 	e.R.AddPart(ev.Part{Name: "cli-histories", Enumerated: "real binary: histories of length <= 2 x N in {1,2,3,5,32}; --track 0 and -1 must be refused", Executions: int64(len(cj) + 2), Exhaustive: true})
 
+	// chords with more tones than tracks, as many, and fewer: a user dictionary of 1..n-tone chords
+	wideFile, wideMax := wideChords(e, m)
+	wd, err := refDict(e.RepoDir, nil, []string{wideFile})
+	if err != nil {
+		panic(err)
+	}
+	mw := *m
+	mw.Dict = wd
+	var wjobs []playCase
+	for _, n := range []int{1, 2, 3, 15, 16, 17, 31, 32, 33, wideMax} {
+		if n > wideMax {
+			continue
+		}
+		for N := 1; N <= 40; N++ {
+			c := playCase{Path: "lib", Cfg: writeCfg{Tracks: N, ChordFiles: []string{wideFile}}}
+			c.Insts = []refplay.Inst{
+				{Chord: &refplay.Chord{Degree: iv("1"), Symbol: fmt.Sprintf("w%d", n)}, Values: one()},
+				{Values: one()},
+				{Chord: &refplay.Chord{Degree: iv("4"), Symbol: ""}, Values: one()},
+				{Chord: &refplay.Chord{Degree: iv("2"), Symbol: fmt.Sprintf("Wide%d", (n+1)/2), Bass: ivp("5")}, Values: []timing.Frac{{Num: 1, Den: 2}}},
+			}
+			wjobs = append(wjobs, c)
+		}
+	}
+	mc.ParFor(len(wjobs), func(i int) {
+		c := wjobs[i]
+		c06Eval(e, &mw, &c, true)
+		e.R.Trace(1)
+		if i%7 == 0 {
+			cc := wjobs[i]
+			cc.Path = "cli"
+			c06Eval(e, &mw, &cc, true)
+		}
+	})
+	e.R.NonTrivialN(int64(len(wjobs)))
+	e.R.AddPart(ev.Part{Name: "wide-chords-x-tracks", Enumerated: fmt.Sprintf("user chords of n = 1, 2, 3, 15, 16, 17, 31, 32, 33, %d tones (pairwise different pitches) in the piece [wide(n), rest, triad, wide(n/2)/5] x every track count 1..40: more tones than tracks, as many, fewer; in-process, every 7th through the real binary", wideMax), Executions: int64(len(wjobs)), Exhaustive: true})
 	runLong(e, 16, func(c *playCase) {
 		for _, n := range []int{2, 3, 16} {
 			cc := *c
